@@ -97,7 +97,7 @@ theorem C02_handler_sees_request_unary [BEq α] [LawfulBEq α] (c : Cfg α) (law
   rw [serve_unary_sees c laws r m hone hm rok.md nc hnc rd htq hfuel ns s sc]
   refine ⟨?_, rfl⟩
   simp only [gotOf, Spec.Call.handlerOk, hone, Bool.not_false, Bool.true_and, beq_self_eq_true]
-  exact carried_of _ _ (fun k hk => C08.C08_preserved_request r.md k (protocolNames_reserved k hk).1)
+  exact exactly_of _ _ (fun k hk => C08.C08_preserved_request r.md k (protocolNames_reserved k hk).1)
 
 /-- **The handler of a streaming-request method receives exactly the caller's messages, in
 order, then the clean end of the stream, and the caller's metadata** — for every request
@@ -113,8 +113,8 @@ theorem C02_handler_sees_request_streaming [BEq α] [LawfulBEq α] (c : Cfg α) 
     (serve c ns true s sc rd).2 = handlerResponse c ns s sc := by
   rw [serve_stream_sees c laws r rok.msgs rok.md nc hnc rd htq hfuel ns s sc]
   refine ⟨?_, rfl⟩
-  have hc : Spec.Call.carried r.md (Metadata.requestWire r.md) = true :=
-    carried_of _ _ (fun k hk => C08.C08_preserved_request r.md k (protocolNames_reserved k hk).1)
+  have hc : Spec.Call.exactly r.md (Metadata.requestWire r.md) = true :=
+    exactly_of _ _ (fun k hk => C08.C08_preserved_request r.md k (protocolNames_reserved k hk).1)
   by_cases hk : sc.reads ≤ r.msgs.msgs.length <;>
     simp [gotOf, Spec.Call.handlerOk, hc, hk]
 
